@@ -82,6 +82,14 @@ def same_value(a, b):
     return rat_eq(a, b)
 
 
+class Vec(tuple):
+    """Small integer vector of *configuration* values (grid extents): elementwise arithmetic."""
+
+    def __getitem__(self, k):
+        r = tuple.__getitem__(self, k)
+        return Vec(r) if isinstance(k, slice) else r
+
+
 class FinamInterp(Interp):
     """Vocabulary shared by all rules that abstractly interpret finam functions."""
 
@@ -133,7 +141,24 @@ class FinamInterp(Interp):
             return True
         return NotImplemented
 
+    def binop(self, op, left, right, node):
+        if isinstance(left, Vec) and isinstance(right, int) and not isinstance(right, bool):
+            f = {ast.Add: lambda a: a + right, ast.Sub: lambda a: a - right, ast.Mult: lambda a: a * right}.get(type(op))
+            if f is not None:
+                return Vec(f(a) for a in left)
+        return super().binop(op, left, right, node)
+
     def ext_call(self, name, args, kwargs, node):
+        short = name.split(".")[-1]
+        if short in ("asarray", "array") and args and isinstance(args[0], (tuple, list)) and all(isinstance(x, int) for x in args[0]):
+            return Vec(args[0])
+        if short == "maximum" and isinstance(args[0], Vec) and isinstance(args[1], int):
+            return Vec(max(a, args[1]) for a in args[0])
+        if short == "prod" and isinstance(args[0], (Vec, tuple, list)) and all(isinstance(x, int) for x in args[0]):
+            r = 1
+            for x in args[0]:
+                r *= x
+            return r
         if name in ("os.remove", "os.unlink"):
             self.effects.append(("remove", args[0]))
             return None
